@@ -16,6 +16,7 @@ require (
 require (
 	github.com/golang/glog v1.2.5 // indirect
 	github.com/google/go-cmp v0.7.0 // indirect
+	github.com/google/uuid v1.6.0 // indirect
 	github.com/kylelemons/godebug v1.1.0 // indirect
 	github.com/openconfig/gnmi v0.14.1 // indirect
 	github.com/openconfig/goyang v1.6.3 // indirect
